@@ -27,6 +27,9 @@ type c08Step struct {
 	// CNode: 1 = the compaction is issued on the second node (both nodes have led at some time: the floor is a
 	// property of the store, whichever node raised it)
 	CNode int `json:"cnode,omitempty"`
+	// CFault: the engine fails the write of the compaction record for this request (nothing applied). The request may
+	// be refused or accepted; accepted means the floor is raised
+	CFault bool `json:"cfault,omitempty"`
 	// read: list | stream | count
 	Read   string `json:"read,omitempty"`
 	RevSel int    `json:"revsel,omitempty"`
@@ -57,9 +60,10 @@ func genC08(t *rapid.T) interface{} {
 			c.Steps = append(c.Steps, c08Step{W: genWOp(t, len(c.Keys))})
 		case k < 7:
 			c.Steps = append(c.Steps, c08Step{
-				CMode: rapid.SampledFrom([]string{"cur", "zero", "above", "sel", "sel", "sel", "sel"}).Draw(t, "cmode"),
-				CSel:  rapid.IntRange(0, 40).Draw(t, "csel"),
-				CNode: rapid.SampledFrom([]int{0, 0, 0, 1}).Draw(t, "cnode"),
+				CMode:  rapid.SampledFrom([]string{"cur", "zero", "above", "sel", "sel", "sel", "sel"}).Draw(t, "cmode"),
+				CSel:   rapid.IntRange(0, 40).Draw(t, "csel"),
+				CNode:  rapid.SampledFrom([]int{0, 0, 0, 1}).Draw(t, "cnode"),
+				CFault: DrawBool(t, 12, "cfault"),
 			})
 		default:
 			c.Steps = append(c.Steps, c08Step{
@@ -134,7 +138,7 @@ func runC08(ci interface{}, st *CaseStats) error {
 	for i, k := range c.Keys {
 		keys[i] = FullKey(k)
 	}
-	env, err := NewSeqEnv(SeqOpts{Engine: c.Engine, Keys: keys, Backend: BackendOpts{Etcd: true}})
+	env, err := NewSeqEnv(SeqOpts{Engine: c.Engine, Keys: keys, UseShim: true, Backend: BackendOpts{Etcd: true}})
 	if err != nil {
 		return Inconclusivef("engine: %v", err)
 	}
@@ -179,9 +183,30 @@ func runC08(ci interface{}, st *CaseStats) error {
 				cb = second
 				st.Label("compaction-on-second-node")
 			}
+			faulted := false
+			if s.CFault {
+				env.Shim.OnCommit = func(ci *CommitInfo) Decision {
+					for _, op := range ci.Ops {
+						if bytes.Equal(op.Key, []byte(Prefix+"/compact_key")) && !faulted {
+							faulted = true
+							return FailNoApply
+						}
+					}
+					return Pass
+				}
+			}
 			resp, err := cb.Compact(env.Ctx, req)
+			env.Shim.OnCommit = nil
 			if err != nil {
+				if faulted {
+					// refused: nothing was raised
+					st.Label("compaction-refused-after-storage-error")
+					continue
+				}
 				return fmt.Errorf("step %d: Compact(%d) returned error %v", i, req, err)
+			}
+			if faulted {
+				st.Label("compaction-accepted-despite-storage-error")
 			}
 			eff := resp.Header.Revision
 			if eff > cur {
